@@ -56,6 +56,17 @@ def mk_tensor(kind, n, seed, root):
         tp = onnx.TensorProto(name="p", data_type=onnx.TensorProto.INT16, dims=[n // 2])
         tp.int32_data.extend([(i * 3 + seed) % 1000 - 500 for i in range(n // 2)])
         return ir.serde.deserialize_tensor(tp)
+    if kind == "proto_int4_int32":
+        # 4-bit elements, two per byte, stored in the typed field int32_data (what helper.make_tensor(raw=False) produces)
+        packed = _bytes(n, seed)
+        tp = onnx.TensorProto(name="p4", data_type=onnx.TensorProto.INT4, dims=[2 * n])
+        tp.int32_data.extend(int(b) for b in packed)
+        return ir.serde.deserialize_tensor(tp)
+    if kind == "proto_uint2_int32":
+        packed = _bytes(n, seed)
+        tp = onnx.TensorProto(name="p2", data_type=onnx.TensorProto.UINT2, dims=[4 * n])
+        tp.int32_data.extend(int(b) for b in packed)
+        return ir.serde.deserialize_tensor(tp)
     if kind == "external_other":
         fn = os.path.join(root, f"src{seed}.bin")
         with open(fn, "wb") as f:
@@ -70,7 +81,8 @@ def mk_tensor(kind, n, seed, root):
 MIXES = {
     # name: list of (value name, kind, bytes, where)   where in {"main", "body"}; "same:<name>" reuses that tensor object
     "plain": [("a", "ndarray", 300, "main"), ("b", "ndarray", 9, "main"), ("c", "ndarray", 5000, "main"), ("z", "ndarray", 0, "main")],
-    "kinds": [("l", "lazy", 300, "main"), ("p4", "packed_int4", 9, "main"), ("i4", "int4", 300, "main"), ("u2", "uint2", 9, "main"), ("pr", "proto", 300, "main"), ("p32", "proto_int32", 300, "main")],
+    "kinds": [("l", "lazy", 300, "main"), ("p4", "packed_int4", 9, "main"), ("i4", "int4", 300, "main"), ("u2", "uint2", 9, "main"), ("pr", "proto", 300, "main"), ("p32", "proto_int32", 300, "main"),
+              ("p4i", "proto_int4_int32", 300, "main"), ("p2i", "proto_uint2_int32", 300, "main"), ("p4s", "proto_int4_int32", 3, "main")],
     "shared_object": [("w1", "ndarray", 300, "main"), ("w2", "same:w1", 300, "main"), ("small", "ndarray", 3, "main"), ("w3", "same:w1", 300, "body")],
     "subgraph": [("m", "ndarray", 300, "main"), ("bi", "ndarray", 300, "body"), ("bs", "ndarray", 3, "body"), ("bz", "lazy", 0, "body")],
     "external_other": [("e1", "external_other", 300, "main"), ("e2", "external_other", 3, "main"), ("n", "ndarray", 9, "main"), ("big", "bf16_2d", 5000, "main")],
